@@ -47,12 +47,9 @@ def structure_case():
         # depend on the running maximum, against the value of the other branch at max = strike), symbolic strike
         s_neg = api.tensor(c, "sneg", (1,), hi=0)
         m_neg = api.tensor(c, "mneg", (1,), hi=0)
-        if c.mode == "sym":
-            c.assume(api.lt(e(s_neg), 0))
-            c.assume(api.lt(e(m_neg), 0))
-            c.assume(api.ge(e(m_neg), e(s_neg)))
-        else:
-            m_neg = torch.maximum(m_neg, s_neg) * 0.5
+        c.assume(api.lt(e(s_neg), 0))
+        c.assume(api.lt(e(m_neg), 0))
+        c.assume(api.ge(e(m_neg), e(s_neg)))
         c.check("lookback continuous where the running max crosses the strike",
                 api.eq(e(F.bs_lookback_price(s_neg, m_neg, t, v, K)), e(F.bs_lookback_price(s_neg, s_neg * 0, t, v, K)), tol=1e-6))
         c.check("American binary continuous where the running max crosses the strike (value 1 at spot = strike)",
